@@ -786,6 +786,7 @@ class State:
         self.live = {}         # tracked function -> live frames
         self.depthmax = {}     # tracked function -> max live frames on this path
         self.killed = False    # ended by a failed assume
+        self.failed = False    # an assertion failed concretely on this path
 
     def fork(self):
         s = State()
@@ -803,7 +804,7 @@ class State:
         s.inputs = list(self.inputs)
         s.notes = list(self.notes)
         s.valist = dict(self.valist)
-        s.choices = self.choices; s.mine = self.mine
+        s.choices = self.choices; s.mine = self.mine; s.failed = self.failed
         s.obs = list(self.obs); s.live = dict(self.live); s.depthmax = dict(self.depthmax)
         # both get new tokens so both copy-on-write
         self.token = object()
@@ -1042,7 +1043,7 @@ class Engine:
             if v > self.depth_seen.get(k, 0):
                 self.depth_seen[k] = v
         # sample this path? (every path until the cap, then thinning by stride)
-        if self.completed % self.sample_stride == 0:
+        if self.completed % self.sample_stride == 0 and not st.failed:
             m = self.model
             if m is None:
                 m = _model(self)
@@ -1962,6 +1963,7 @@ def install_intrinsics(E):
         msg = E.cstring(st, args[1]).decode()
         if type(c) is int:
             if c == 0:
+                st.failed = True
                 E.report(st, 'assert', msg, E.model if E.model is not None else _model(E))
                 if E.stop_on_first:
                     raise PathEnd()
@@ -1993,6 +1995,8 @@ def install_intrinsics(E):
     I['symx_conc'] = i_conc
 
     def i_reach(E, st, fr, ins, args):
+        if type(args[0]) is not int:
+            raise NeedConc(0)
         msg = E.cstring(st, args[0]).decode()
         if E.is_mine(st):
             E.reached[msg] = E.reached.get(msg, 0) + 1
